@@ -85,6 +85,21 @@ func loopsContain(fn *ssa.Function, b *ssa.BasicBlock) bool {
 	return false
 }
 
+// leftFromLoopBody: block b lies outside every loop but is entered from inside
+// a loop body (not from a loop's own exit test): the target of a `return`
+// or `break` written inside the loop. Return blocks are never part of a natural
+// loop, so "is this return inside the loop" has to be asked this way.
+func leftFromLoopBody(fn *ssa.Function, b *ssa.BasicBlock) bool {
+	for _, p := range b.Preds {
+		for _, l := range loopsOf(fn) {
+			if l.blocks[p] && p != l.header {
+				return true
+			}
+		}
+	}
+	return false
+}
+
 // ruleLeaderPlaceholder: a region without leader is sent with an empty peer,
 // never with nil and never skipped (history path).
 func ruleLeaderPlaceholder(c *Ctx) {
@@ -125,6 +140,20 @@ func ruleLeaderPlaceholder(c *Ctx) {
 			}
 		} else if _, ok := elem.(*ssa.Alloc); ok {
 			hasAlloc = true
+		}
+		if !hasAlloc && okAll {
+			// the two cases may be written as two appends: this one is then reached only with a non-nil leader
+			// (the other branch appends the empty peer)
+			nn := guardRel("the region's leader is not nil", "!=", func(v ssa.Value) bool {
+				for _, alt := range valueAlternatives(elem, 3) {
+					if sameVal(v, alt) {
+						return true
+					}
+				}
+				return valueIsCallTo(v, getLeader)
+			}, isNilConst)
+			_, fails := requireAt(P, fn, 0, []Ev{nn}, func(x ssa.Instruction) bool { return x == at }, all)
+			hasAlloc = len(fails) == 0
 		}
 		c.Check(okAll && hasAlloc, rule, what+" in "+fnName(fn), "the leader entry is the region's leader or, when it has none, a fresh empty peer", P.instrPos(at), detail+map[bool]string{true: "", false: " (no empty-peer alternative)"}[hasAlloc])
 	}
